@@ -22,6 +22,7 @@ EstOK(o, e) ==
   /\ ((e.keep /\ e.dial_ok) => e.kept_ok)                       \* earlier brokered connections keep working
   /\ CASE e.nopeer = "dial_only" -> ~e.dial_ok /\ e.dial_ms <= UnmatchedBoundMs(o)      \* DialsReturn
        [] e.nopeer = "accept_only" -> TRUE
+       [] e.nopeer = "dial_again" -> e.dial_ok                  \* one more connection to a listener that is still being served
        [] OTHER -> (e.gap_ms < W => e.dial_ok)                  \* FirstCallOK inside the window, either order
 
 Conforms(o) ==
